@@ -18,7 +18,7 @@ PROP = dict(
 META = dict(
     text=("Lean theorems about the replication bookkeeping model for every history of writes, outages and retry rounds: at every point every document whose latest write B lacks is marked as owed under a retry record that is not stuck "
           "in the retrying state; a retry round while B is reachable delivers everything owed and clears the bookkeeping; hence after ANY history, once B is reachable and one round has run, B holds what A holds; no record means "
-          "nothing is missing. Tied to /repo by reading A's retry records, owed-document markers and replicator status from its peer store after every step of generated outage histories on real libp2p nodes and by the final "
+          "nothing is missing; B never holds more than A wrote, what B holds never shrinks, and the replicator status is active exactly while no retry record exists, so an active replicator owes nothing. Tied to /repo by reading A's retry records, owed-document markers and replicator status from its peer store after every step of generated outage histories on real libp2p nodes and by the final "
           "comparison of B with A."),
     design_ref="DESIGN.md section 8, C15",
     note=("Trusted: Lean kernel; harness/repl and its two hooks. PARTIAL: the model is sequential (one event at a time): races between a running retry task and concurrent writes, and message loss inside libp2p, are not modelled; "
